@@ -72,7 +72,7 @@ static int run_random(uint64_t seed, long n) {
     float t0 = 0;
     for (int k = 0; k < frames; ++k) { t0 += (float)r.unit(); ts[k] = t0; }
     if (r.coin(1, 10)) std::reverse(ts.begin(), ts.end());   // order is data, not sorted by the codec
-    struct Track { int id; int comps; DataType dt; int q; std::vector<float> f; std::vector<int32_t> iv; bool deleted = false; };
+    struct Track { int id; int comps; DataType dt; int q; std::vector<float> f; std::vector<int32_t> iv; bool deleted = false; std::vector<char> bytes; int es = 4; };
     std::vector<Track> tracks;
     if (ts_first) anim.SetTimestamps(ts);
     for (int t = 0; t < ntracks; ++t) {
@@ -106,6 +106,25 @@ static int run_random(uint64_t seed, long n) {
             tr.iv[(size_t)k * tr.comps + c] = v;
           }
           tr.id = anim.AddKeyframes(DT_INT32, tr.comps, tr.iv);
+          tracks.push_back(tr);
+          continue;
+        }
+        // integer tracks of the narrow types (8 and 16 bits, signed and unsigned): a fifth of the integer tracks, values over the whole type
+        if (!(frames == 4096 && t == 0) && r.coin(1, 5)) {
+          static const DataType nts[] = {DT_INT8, DT_UINT8, DT_INT16, DT_UINT16};
+          tr.dt = nts[r.range(0, 3)];
+          tr.es = (tr.dt == DT_INT8 || tr.dt == DT_UINT8) ? 1 : 2;
+          const bool narrow_span = r.coin(1, 3);
+          auto fill = [&](auto proto) {
+            typedef decltype(proto) T;
+            std::vector<T> data((size_t)frames * tr.comps);
+            const int64_t lo = std::numeric_limits<T>::min(), hi = std::numeric_limits<T>::max();
+            for (auto &x : data) x = (T)(narrow_span ? (hi - (int64_t)r.below(9)) : (lo + (int64_t)r.below((uint64_t)(hi - lo + 1))));
+            tr.bytes.assign((const char *)data.data(), (const char *)data.data() + data.size() * sizeof(T));
+            tr.id = anim.AddKeyframes(tr.dt, tr.comps, data);
+          };
+          if (tr.dt == DT_INT8) fill((int8_t)0); else if (tr.dt == DT_UINT8) fill((uint8_t)0); else if (tr.dt == DT_INT16) fill((int16_t)0); else fill((uint16_t)0);
+          tr.iv.clear();
           tracks.push_back(tr);
           continue;
         }
@@ -192,9 +211,9 @@ static int run_random(uint64_t seed, long n) {
       if (tr.deleted) continue;
       const PointAttribute *ka = (dok && tr.id >= 0) ? outa.keyframes(tr.id) : nullptr;
       Dict d; std::vector<int> a, b;
-      const size_t vs = 4u * tr.comps;
+      const size_t vs = (size_t)tr.es * tr.comps;
       for (int k = 0; k < frames; ++k) {
-        const char *src = tr.dt == DT_FLOAT32 ? (const char *)&tr.f[(size_t)k * tr.comps] : (const char *)&tr.iv[(size_t)k * tr.comps];
+        const char *src = !tr.bytes.empty() ? &tr.bytes[(size_t)k * vs] : tr.dt == DT_FLOAT32 ? (const char *)&tr.f[(size_t)k * tr.comps] : (const char *)&tr.iv[(size_t)k * tr.comps];
         a.push_back(d.id(std::string(src, vs)));
       }
       if (ka) for (PointIndex p(0); p < outa.num_points(); ++p) b.push_back(d.id(raw_key(ka, p)));
